@@ -292,7 +292,7 @@ def run(chk):
     _component_run(chk)
     from harness import syscheck
     core.extra_props_phase(chk, "C04_system")
-    syscheck.system_phase(chk, "C04", {'plain': 8, 'sbatchfail': 1, 'local': 1}, n_quick=120, n_thorough=2500, also=())
+    syscheck.system_phase(chk, "C04", {'plain': 6, 'sbatchfail': 1, 'local': 1, 'resubmit': 8}, n_quick=160, n_thorough=2500, also=())
 
 
 def replay(path):
